@@ -96,6 +96,7 @@ class Effects:
                 self.byname.setdefault(f.name, []).append(f)
         self.unresolved: List[str] = []
         self.module_mutables: Dict[str, Set[str]] = {}
+        self._owned: Dict[str, Set[str]] = {}
         for m in prog.modules.values():
             s = set()
             for name, val in m.assigns.items():
@@ -105,6 +106,46 @@ class Effects:
                 s.add(name) if isinstance(st, ast.AugAssign) else None
             self.module_mutables[m.name] = s
         self._solve()
+
+    def owned_fields(self, cname: str) -> Set[str]:
+        """Fields of a NEW private class that are bound, wherever they are bound, to an object created on the spot (a
+        display, a comprehension, `[x] * n`, list()/dict()/set()/sorted()): the instance owns what they hold."""
+        if cname in self._owned:
+            return self._owned[cname]
+        from .pathsim import _is_new_class
+
+        out: Set[str] = set()
+        ci = self.prog.classes.get(cname)
+        if ci is not None and cname.startswith("_") or (ci is not None and ci.module.base.startswith("_")):
+            if _is_new_class(cname):
+                fresh: Dict[str, bool] = {}
+
+                def is_fresh(v: ast.AST) -> bool:
+                    if isinstance(v, (ast.List, ast.Dict, ast.Set, ast.ListComp, ast.DictComp, ast.SetComp, ast.Constant)):
+                        return True
+                    if isinstance(v, ast.BinOp) and isinstance(v.op, ast.Mult) and (isinstance(v.left, ast.List) or isinstance(v.right, ast.List)):
+                        return True
+                    if isinstance(v, ast.Call) and isinstance(v.func, ast.Name) and v.func.id in ("list", "dict", "set", "sorted", "tuple", "frozenset"):
+                        return True
+                    return False
+
+                for m in ci.methods.values():
+                    me = m.params[0] if m.params and m.kind in ("method", "property") else None
+                    if me is None:
+                        continue
+                    for node in ast.walk(m.node):
+                        tg, val = None, None
+                        if isinstance(node, ast.Assign) and len(node.targets) == 1:
+                            tg, val = node.targets[0], node.value
+                        elif isinstance(node, ast.AnnAssign) and node.value is not None:
+                            tg, val = node.target, node.value
+                        elif isinstance(node, ast.AugAssign):
+                            tg, val = node.target, None
+                        if isinstance(tg, ast.Attribute) and isinstance(tg.value, ast.Name) and tg.value.id == me:
+                            fresh[tg.attr] = fresh.get(tg.attr, True) and val is not None and is_fresh(val)
+                out = {f for f, ok in fresh.items() if ok}
+        self._owned[cname] = out
+        return out
 
     # ------------------------------------------------------------ fixpoint
     def _solve(self) -> None:
@@ -380,6 +421,12 @@ class _FnAnalysis:
                 return VFRESH
             if e.attr in ("shape", "size", "ndim", "real", "imag", "lineno", "column", "line"):
                 return VFRESH  # immutable numbers / tuples of numbers
+            if isinstance(base, ast.Name) and self.fi.cls is not None and self.params and base.id == self.params[0] and self.fi.kind in ("method", "property") and e.attr in self.eff.owned_fields(self.fi.cls.name):
+                # a field of a private helper class (one the reference tree does not have) that only ever holds an
+                # object the instance created itself: editing it edits the helper object, not anybody's operand
+                bv0 = self.vec_of(base)
+                d0 = down(bv0)
+                return (frozenset({FRESH}), d0[1], d0[2])
             bv = self.vec_of(base)
             if all(o[0] == "g" and str(o[1]).startswith("module:") for o in bv[0]) and bv[0]:
                 # module.attr
